@@ -5,7 +5,7 @@ use std::collections::{HashMap, HashSet};
 use std::fs;
 use std::sync::atomic::{AtomicBool, AtomicU64, Ordering};
 use std::sync::mpsc;
-use std::sync::{Arc, RwLock};
+use std::sync::{Arc, Mutex, RwLock};
 use std::thread;
 use std::time::Duration;
 
@@ -133,6 +133,8 @@ pub struct TopicCleanTracker {
     states: RwLock<HashMap<String, Arc<TopicCleanState>>>,
     store: Arc<CleanMarkerStore>,
     persist_tx: mpsc::Sender<String>,
+    stop: Arc<AtomicBool>,
+    persister: Mutex<Option<thread::JoinHandle<()>>>,
 }
 
 impl TopicCleanTracker {
@@ -142,9 +144,25 @@ impl TopicCleanTracker {
             states: RwLock::new(HashMap::new()),
             store,
             persist_tx: tx,
+            stop: Arc::new(AtomicBool::new(false)),
+            persister: Mutex::new(None),
         });
-        Self::spawn_persister(&tracker, rx);
+        let handle = Self::spawn_persister(&tracker, rx);
+        if let Ok(mut slot) = tracker.persister.lock() {
+            *slot = Some(handle);
+        }
         tracker
+    }
+
+    /// Stops the background persister, waits for any write it has in flight, then writes the
+    /// current state of every topic. After this returns the marker file holds the latest state.
+    pub fn shutdown(&self) -> std::io::Result<()> {
+        self.stop.store(true, Ordering::Release);
+        let handle = self.persister.lock().ok().and_then(|mut slot| slot.take());
+        if let Some(handle) = handle {
+            let _ = handle.join();
+        }
+        self.flush_all()
     }
 
     pub fn hydrate(&self, snapshot: HashMap<String, CleanMarkerRecord>) {
@@ -198,11 +216,18 @@ impl TopicCleanTracker {
             .clone()
     }
 
-    fn spawn_persister(tracker: &Arc<Self>, rx: mpsc::Receiver<String>) {
+    fn spawn_persister(
+        tracker: &Arc<Self>,
+        rx: mpsc::Receiver<String>,
+    ) -> thread::JoinHandle<()> {
         let weak = Arc::downgrade(tracker);
+        let stop = tracker.stop.clone();
         thread::spawn(move || {
             let mut pending = HashSet::new();
             loop {
+                if stop.load(Ordering::Acquire) {
+                    break;
+                }
                 match rx.recv_timeout(Duration::from_millis(5)) {
                     Ok(topic) => {
                         pending.insert(topic);
@@ -225,7 +250,7 @@ impl TopicCleanTracker {
                 }
                 pending.clear();
             }
-        });
+        })
     }
 
     fn persist_topics(&self, topics: &HashSet<String>) -> std::io::Result<()> {
@@ -243,15 +268,21 @@ impl TopicCleanTracker {
         self.store.persist_updates(&updates)
     }
 
-    #[cfg(test)]
-    pub fn force_flush_for_test(&self) -> std::io::Result<()> {
+    fn flush_all(&self) -> std::io::Result<()> {
         let snapshot = {
-            let guard = self.states.read().unwrap();
+            let guard = self.states.read().map_err(|_| {
+                std::io::Error::new(std::io::ErrorKind::Other, "topic tracker map lock poisoned")
+            })?;
             guard
                 .iter()
                 .map(|(topic, state)| (topic.clone(), state.snapshot()))
                 .collect::<Vec<_>>()
         };
         self.store.persist_updates(&snapshot)
+    }
+
+    #[cfg(test)]
+    pub fn force_flush_for_test(&self) -> std::io::Result<()> {
+        self.flush_all()
     }
 }
